@@ -127,7 +127,10 @@ def main():
         missed = 0
         for sid in ids:
             res = run(sid, a.scale, a.tier, a.seed)
-            if not res or not res["caught"]:
+            oos = json.load(open(os.path.join(SEEDED, sid, "meta.json"))).get("out_of_scope")
+            if oos:
+                print(f"  ({sid}: {oos})")
+            elif not res or not res["caught"]:
                 missed += 1
             if a.record and res:
                 mp = os.path.join(SEEDED, sid, "meta.json")
